@@ -55,8 +55,32 @@ def number_scope(F, impl_self_suffix="::SimpleNumber", fixture_prefix=None):
     return roots, scope
 
 
-def _flag_reaches_switch(mir, dest_local):
-    """Does field .1 of tuple local `dest_local` reach a SwitchInt discriminant (through copies)?"""
+def _flag_reaches_switch(mir, dest_local, F=None, depth=0):
+    """Does field .1 of tuple local `dest_local` reach a SwitchInt discriminant (through copies)?  The (value, flag) tuple may
+    also be handed whole to a workspace function (`checked_integer(v.overflowing_abs())`); then the question is asked of that
+    function's parameter (3 hops)."""
+    if F is not None and depth < 3:
+        whole = {dest_local}
+        changed = True
+        while changed:
+            changed = False
+            for b in mir["blocks"]:
+                for s in b["stmts"]:
+                    if s["k"] == "Assign" and s["rv"]["k"] == "Use" and not s["place"]["p"]:
+                        pl = mirq.op_place(s["rv"]["op"])
+                        if pl and not pl["p"] and pl["l"] in whole and s["place"]["l"] not in whole:
+                            whole.add(s["place"]["l"])
+                            changed = True
+        for b in mir["blocks"]:
+            t = b["term"]
+            if t["k"] != "Call":
+                continue
+            for ai, a in enumerate(t["args"]):
+                pl = mirq.op_place(a)
+                if pl and not pl["p"] and pl["l"] in whole:
+                    g = F.fns.get(t.get("resolved") or "") or F.fns.get(t.get("def") or "")
+                    if g is not None and g.get("mir") and ai + 1 <= g["mir"]["argc"] and _flag_reaches_switch(g["mir"], ai + 1, F, depth + 1):
+                        return True
     flags = set()
     for b in mir["blocks"]:
         for s in b["stmts"]:
@@ -111,7 +135,7 @@ def n1_sites(F, f):
             name = last(d)
             if d.startswith("core::num::<impl ") and d.split("<impl ")[1].split(">")[0] in INT_TYS:
                 if name.startswith("overflowing_"):
-                    if not t["dest"]["p"] and not _flag_reaches_switch(mir, t["dest"]["l"]):
+                    if not t["dest"]["p"] and not _flag_reaches_switch(mir, t["dest"]["l"], F):
                         counts["flag"] = counts.get("flag", 0) + 1
                         yield ("flag-ignored:%s#%d" % (name, counts["flag"]), loc(t), "overflow flag of `%s` is never branched on: the wrapped value would be returned" % name)
                 elif name.startswith(("wrapping_", "saturating_", "unchecked_")) or name in ("pow", "abs", "isqrt", "ilog", "ilog2", "ilog10", "div_euclid", "rem_euclid", "rotate_left", "rotate_right", "shl", "shr"):
@@ -121,7 +145,7 @@ def n1_sites(F, f):
             if name in ("call", "call_once", "call_mut") and d.startswith("core::ops::function::Fn"):
                 dty = mir["locals"][t["dest"]["l"]]["ty"] if not t["dest"]["p"] else ""
                 if dty.replace(" ", "") in ("(i32,bool)", "(i64,bool)"):
-                    if not _flag_reaches_switch(mir, t["dest"]["l"]):
+                    if not _flag_reaches_switch(mir, t["dest"]["l"], F):
                         counts["flag"] = counts.get("flag", 0) + 1
                         yield ("flag-ignored:closure#%d" % counts["flag"], loc(t), "overflow flag returned by the integer operation closure is never branched on")
             # integer fn items handed to helpers must be overflow-reporting ones
@@ -228,7 +252,9 @@ def _is_float_arith(node):
     return False
 
 
-def n3_sites(f, allowed):
+def n3_sites(f, allowed, helper=False):
+    """helper=True: f is a plain helper of the number implementation (not a GarnishNumber method, not a closure); the float
+    parameters of such a function receive whatever its callers computed, so they count as arithmetic results."""
     mir = f["mir"]
     asg = mirq.assignments(mir)
     dom = None
@@ -248,7 +274,7 @@ def n3_sites(f, allowed):
             if x is None:
                 continue
             orgs = mirq.origins(mir, x, asg)
-            arith = [o for o in orgs if _is_float_arith(o[2])]
+            arith = [o for o in orgs if _is_float_arith(o[2]) or (helper and o[2].get("k") == "Param" and mir["locals"][o[2]["index"]]["ty"] in ("f64", "f32"))]
             examined += 1
             if not arith:
                 continue
@@ -289,15 +315,16 @@ def rule_N3(ctx):
     roots, scope = number_scope(F)
     r.floor("GarnishNumber methods of SimpleNumber", len(roots), 17)
     total = 0
+    root_paths = set(x["path"] for x in roots)
     for p, f in sorted(scope.items()):
-        for inst, where, msg, _ex in n3_sites(f, al):
+        for inst, where, msg, _ex in n3_sites(f, al, helper=(p not in root_paths and f["kind"] != "Closure")):
             total += 1
             r.examine(p + "|" + inst, True, {"fn": p, "site": where, "ok": msg is None})
             if msg:
                 r.finding(p, inst, where, msg)
     for p in al:
         r.info.append("allow-listed (finite by construction): %s — %s" % (p, al[p]))
-    r.floor("Float(arithmetic result) construction sites", total, 8)
+    r.floor("Float(arithmetic result) construction sites", total, 2)
     _r2, fscope = number_scope(F, fixture_prefix="gfixture::n3::")
     for p, f in fscope.items():
         if f["kind"] == "Closure":
